@@ -55,17 +55,6 @@ pub fn same_length_(constant_length: &mut Option<usize>, len: usize) -> (r: bool
 {
     match *constant_length { None => { *constant_length = Some(len); true } Some(l) => l == len }
 }
-impl RoaringBitmap {
-    #[verifier::external_body]
-    pub fn select(&self, n: u32) -> (r: Option<u32>)
-        ensures n == 0 ==> (match r { Some(m) => set_min(self@, m), None => self@ =~= Set::<u32>::empty() })
-    { unimplemented!() }
-    #[verifier::external_body]
-    pub fn remove_smallest(&mut self, n: u64)
-        ensures n == 1 ==> ((old(self)@ =~= Set::<u32>::empty() ==> final(self)@ == old(self)@)
-            && (forall|m: u32| set_min(old(self)@, m) ==> final(self)@ == old(self)@.remove(m)))
-    { unimplemented!() }
-}
 pub struct ImmutableLeafs { pub leafs: IntMap, pub constant_length: Option<usize>, pub _marker: core::marker::PhantomData<Dist> }
 
 impl ImmutableLeafs {
